@@ -13,7 +13,7 @@ static std::string u8(std::initializer_list<uint32_t> l) { std::vector<uint8_t> 
 static void setup(Runner &r, const Tier &t) {
     g_c.build({}, t.thorough ? 0 : 60, { 0, 1, 3 }); g_cases.clear();
     for (size_t i = 0; i < g_c.cases.size(); ++i) g_cases.push_back({ 0, g_c.cases[i].font, g_c.cases[i].item, g_c.cases[i].dir });
-    g_syn = { gen_dir() + "/s_full.ttf", gen_dir() + "/s_full_rtl.ttf", gen_dir() + "/s_full_v3.ttf", gen_dir() + "/s_min.ttf", gen_dir() + "/s_full_pb.ttf", gen_dir() + "/s_full_bidi.ttf", gen_dir() + "/s_full_rtl_bidi.ttf", gen_dir() + "/s_full_jatt.ttf", gen_dir() + "/s_full_rtl_jatt.ttf" }; g_syntexts.clear();
+    g_syn = { gen_dir() + "/s_full.ttf", gen_dir() + "/s_full_rtl.ttf", gen_dir() + "/s_full_v3.ttf", gen_dir() + "/s_min.ttf", gen_dir() + "/s_full_pb.ttf", gen_dir() + "/s_full_bidi.ttf", gen_dir() + "/s_full_rtl_bidi.ttf", gen_dir() + "/s_full_jatt.ttf", gen_dir() + "/s_full_rtl_jatt.ttf", gen_dir() + "/s_full_badgid.ttf" }; g_syntexts.clear();
     static const uint32_t alpha[8] = { 0x61, 0x62, 0x63, 0x64, 0x65, 0x20, 0x301, 0x300 };
     for (size_t f = 0; f < g_syn.size(); ++f) { std::vector<std::string> tx; int maxlen = t.thorough ? 4 : 3;
         for (int L = 0; L <= maxlen; ++L) { int n = 1; for (int k = 0; k < L; ++k) n *= 8; for (int v = 0; v < n; ++v) { std::vector<uint8_t> b; int x = v; for (int k = 0; k < L; ++k) { ref::enc8(alpha[x % 8], b); x /= 8; } tx.push_back(std::string(b.begin(), b.end())); } }
@@ -60,7 +60,7 @@ static bool break_ok(const std::vector<const gr_slot*> &sl, size_t k) { if (k ==
 static void setup_just(Runner &r, const Tier &t) {
     g_jc.clear(); g_jcorp.build({ "Padauk.ttf", "charis_r_gr.ttf", "Scheherazadegr.ttf", "general.ttf" }, t.thorough ? 200 : 25, { 0 });
     for (size_t i = 0; i < g_jcorp.cases.size(); ++i) g_jc.push_back({ 0, g_jcorp.cases[i].font, g_jcorp.cases[i].item });
-    g_jsyn = { gen_dir() + "/s_full.ttf", gen_dir() + "/s_full_rtl.ttf" }; g_jtx.clear(); static const uint32_t alpha[5] = { 0x61, 0x62, 0x20, 0x301, 0x64 };
+    g_jsyn = { gen_dir() + "/s_full.ttf", gen_dir() + "/s_full_rtl.ttf", gen_dir() + "/s_full_nojust.ttf", gen_dir() + "/s_full_badgid.ttf" };      /* no justification levels: every glyph is stretched; badgid: d maps to a glyph id beyond the font */ g_jtx.clear(); static const uint32_t alpha[5] = { 0x61, 0x62, 0x20, 0x301, 0x64 };
     for (size_t f = 0; f < g_jsyn.size(); ++f) { std::vector<std::string> tx; int L = t.thorough ? 5 : 4; int n = 1; for (int k = 0; k < L; ++k) n *= 5; for (int v = 0; v < n; ++v) { std::vector<uint8_t> b; int x = v, sp = 0; for (int k = 0; k < L; ++k) { if (x % 5 == 2) ++sp; ref::enc8(alpha[x % 5], b); x /= 5; } if (sp) tx.push_back(std::string(b.begin(), b.end())); }
         g_jtx.push_back(tx); for (int it = 0; it < int(tx.size()); ++it) g_jc.push_back({ 1, int(f), it }); }
     r.ncases = g_jc.size(); r.case_alarm_s = 120; r.shard_init = [](int) { g_fc = new FaceCache; };
